@@ -82,7 +82,7 @@ impl IT {
 
 /// an integer value of type `t` as an exact Big (always inside the type's range)
 fn int_value(ctx: &mut Ctx, t: IT) -> Big {
-    let c = ctx.weighted(&[3, 3, 4, 4, 2]);
+    let c = ctx.weighted(&[3, 3, 4, 4, 2, 3]);
     let one = Big::one();
     let clampv = |v: Big| -> Big {
         if v < t.min() {
@@ -158,6 +158,36 @@ fn int_value(ctx: &mut Ctx, t: IT) -> Big {
                     v.neg()
                 } else {
                     v
+                }
+            }
+        }
+        5 => {
+            // boundary -+ d with d of every bit length (MAX - 2^70, MIN + 2^40 + 1, 2^k - d ...)
+            ctx.label("int:boundary-distance");
+            let which = ctx.below(4);
+            let base = match which {
+                0 => t.max(),
+                1 => t.min(),
+                2 => Big::pow2(ctx.range(1, nbits as i64)),
+                _ => Big::pow2(ctx.range(1, nbits as i64)).neg(),
+            };
+            let len = ctx.range(1, nbits as i64) as u32;
+            let raw = ((ctx.word() as u128) << 64) | ctx.word() as u128;
+            let d = match ctx.below(3) {
+                0 => Big::pow2(len as i64 - 1),
+                1 => Big::pow2(len as i64 - 1).add(&Big::from_i64(ctx.range(-2, 2))),
+                _ => Big::from_u128((raw >> (128 - len.min(128))) | (1u128 << (len - 1))),
+            };
+            let inward = ctx.flag();
+            match which {
+                0 => base.sub(&d),
+                1 if t.signed() => base.add(&d),
+                _ => {
+                    if inward {
+                        base.sub(&d)
+                    } else {
+                        base.add(&d)
+                    }
                 }
             }
         }
